@@ -1,5 +1,5 @@
 (** Judges for C05 (exact optimum), C06 (ParCons), C07 (ParFront, consistent_with). *)
-From Corankco Require Import Prelude Scheme Rank KemenySpec CostTable OptTheory Partition Judge.JC19 Judge.JC13 Judge.JC20.
+From Corankco Require Import Prelude Scheme Rank KemenySpec CostTable OptTheory Partition ParConsProof Judge.JC19 Judge.JC13 Judge.JC20.
 Local Open Scope Z_scope.
 
 Definition to_ids (U : list nat) (c : ranking) : ranking :=
@@ -11,13 +11,23 @@ Definition groups_eq (P Q : ranking) : bool :=
 Definition wf_cons (n : nat) (c : ranking) : bool :=
   is_perm (elems c) (seq 0 n) && forallb (fun b => negb (Nat.eqb (length b) 0)) c.
 
-(** one ParCons run: bound, consensus, flag, reported weak partition (all in ids) *)
-Record pc_run := mkPC { pc_bound : nat; pc_cons : ranking; pc_flag : bool; pc_weak : ranking }.
+(** one call to a sub-solver, as recorded by the harness: which solver (auxiliary or exact), the sub-problem
+    dataset it received, the ranking it returned (elements) *)
+Record pc_call := mkCall { call_aux : bool; call_D : dataset; call_res : ranking }.
+(** one ParCons run: bound, consensus, flag, reported weak partition, recorded sub-solver calls (elements) *)
+Record pc_run := mkPC { pc_bound : nat; pc_cons : ranking; pc_flag : bool; pc_weak : ranking; pc_calls : list pc_call }.
 Record c06 := mkC06 {
   o_s : scheme; o_D : dataset; o_U : list nat;
   o_P : ranking;               (* OrderedPartition.parcons_partition, elements *)
   o_runs : list pc_run;        (* elements *)
   o_check_opt : bool }.        (* whether the optimum is computed (size limit of the tier) *)
+
+Fixpoint forallb2 {A B} (f : A -> B -> bool) (l1 : list A) (l2 : list B) : bool :=
+  match l1, l2 with
+  | [], [] => true
+  | a :: l1', b :: l2' => f a b && forallb2 f l1' l2'
+  | _, _ => false
+  end.
 
 Definition judge_parcons (c : c06) : nat :=
   let U := o_U c in
@@ -25,7 +35,22 @@ Definition judge_parcons (c : c06) : nat :=
   let M := cost_matrix (o_s c) (positions U (o_D c)) in
   let K := table_of M in
   let P := to_ids U (o_P c) in
-  let m := list_eqb Nat.eqb (universe (o_D c)) U && groups_eq (sccs K n) P in
+  let Dids := map (to_ids U) (o_D c) in
+  let hard := filter (fun g => negb (can_be_all_tied K g)) P in
+  (* the model of the assembly (ParConsProof.parcons), its sub-solvers answering what the library's did *)
+  let oracle (r : pc_run) (G : list nat) : ranking :=
+    match find (fun cl => set_eq (elems (to_ids U (call_res cl))) G) (pc_calls r) with
+    | Some cl => to_ids U (call_res cl) | None => [] end in
+  let m := list_eqb Nat.eqb (universe (o_D c)) U && groups_eq (sccs K n) P
+    && forallb (fun r =>
+         let model := parcons K (pc_bound r) (oracle r) (oracle r) P in
+         list_eqb set_eq (fst model) (to_ids U (pc_cons r)) && Bool.eqb (snd model) (pc_flag r)
+         (* one call per component that cannot be all tied, in order, to the solver the bound selects, on the
+            sub-problem of the model: projection on the component + re-added empty rankings *)
+         && forallb2 (fun g cl => Bool.eqb (call_aux cl) (pc_bound r <? length g)%nat
+                                  && list_eqb (list_eqb set_eq) (map (to_ids U) (call_D cl)) (sub_dataset g Dids)
+                                  && set_eq (elems (to_ids U (call_res cl))) g)
+                     hard (pc_calls r)) (o_runs c) in
   let need_opt := o_check_opt c && existsb pc_flag (o_runs c) in
   let best := if need_opt then opt K (seq 0 n) else 0 in
   let spec :=
